@@ -226,6 +226,7 @@ TEMPLATES = {
     # context -> (ExplorerScript source with one placeholder op, op name whose parameter is replaced, index of the parameter)
     "arg": ("zzprobe(0);", PROBE, 0),
     "arg2": ("zzprobe(5, 0, CONST);", PROBE, 1),            # in the middle of an argument list
+    "inlinectx": ("with (actor 3) {\nzzprobe(0);\n}\nzzend();", PROBE, 0),   # printed as zzprobe<actor 3>(...)
     "menu": ("switch (message_SwitchMenu(1, 2)) {\ncase menu('x'):\nzzin();\nbreak;\n}\nzzend();", "CaseMenu", 0),
     "casetext": ("message_SwitchTalk ($X) {\ncase 7: 'x'\ndefault: 'y'\n}\nzzend();", "CaseText", 1),
     "defaulttext": ("message_SwitchMonologue ($X) {\ncase 7: 'x'\ndefault: 'y'\n}\nzzend();", "DefaultText", 0),
@@ -318,6 +319,97 @@ def e2e_one(c: dict) -> dict:
 
 def e2e_cases(cases: list[dict]) -> list[dict]:
     return [e2e_one(c) for c in cases]
+
+
+# ---------------------------------------------------------------------------------------------------------------------
+# end-to-end channel, whole parameter lists: every target op of a template gets a complete parameter list
+# ---------------------------------------------------------------------------------------------------------------------
+MTEMPLATES = {
+    # context -> (ExplorerScript source, names of the target ops in op order); the ops named in FREE_ARITY take a parameter
+    # list of any length, of the others the leading parameters are replaced (a jump target behind them stays)
+    "arg": ("zzprobe(0);", [PROBE]),
+    "inlinectx": ("with (actor 3) {\nzzprobe(0);\n}\nzzend();", [PROBE]),
+    "switchhdr": ("switch (ProcessSpecial(0, 1, 2)) {\ncase 1:\nzzin();\nbreak;\n}\nzzend();", ["ProcessSpecial"]),
+    "menu": ("switch (message_SwitchMenu(1, 2)) {\ncase menu('x'):\nzzin();\nbreak;\ncase menu('y'):\nzzin2();\nbreak;\n}\nzzend();",
+             ["CaseMenu", "CaseMenu"]),
+    "casetext": ("message_SwitchTalk ($X) {\ncase 7: 'x'\ncase 8: 'z'\ndefault: 'y'\n}\nzzend();", ["CaseText", "CaseText", "DefaultText"]),
+}
+FREE_ARITY = {PROBE, "ProcessSpecial"}
+_MTPL_CACHE: dict = {}
+
+
+def _mtemplate_ops(ctx: str, depth: int) -> tuple:
+    from explorerscript.ssb_converting.ssb_compiler import ExplorerScriptSsbCompiler
+    key = (ctx, depth)
+    if key not in _MTPL_CACHE:
+        c = ExplorerScriptSsbCompiler("PERF_VAR", [])
+        c.compile(_wrap(depth, MTEMPLATES[ctx][0]), "/tmp/c04_template.exps")
+        _MTPL_CACHE[key] = (c.routine_infos, c.routine_ops)
+    return _MTPL_CACHE[key]
+
+
+def _targets(ops: list, names: list[str]) -> list:
+    want = set(names)
+    return [op for r in ops for op in r if op.op_code.name in want]
+
+
+def e2e_ops_one(c: dict) -> dict:
+    """c = {ops: [[param, ...], ...], ctx, depth, dec}: ops[i] becomes the complete parameter list of the i-th target op
+    of the template; decompile, compile again, report every parameter of every target op."""
+    import copy
+    from explorerscript.ssb_converting import ssb_data_types as dt
+    from explorerscript.ssb_converting.ssb_compiler import ExplorerScriptSsbCompiler
+    from explorerscript.ssb_converting.ssb_decompiler import ExplorerScriptSsbDecompiler
+    from explorerscript.ssb_script.ssb_converting.ssb_compiler import SsbScriptSsbCompiler
+    from explorerscript.ssb_script.ssb_converting.ssb_decompiler import SsbScriptSsbDecompiler
+    out: dict = {}
+    ctx, depth, dec = c["ctx"], c["depth"], c["dec"]
+    _src, names = MTEMPLATES[ctx]
+    try:
+        infos, ops = _mtemplate_ops(ctx, depth)
+        infos, ops = copy.deepcopy(infos), copy.deepcopy(ops)
+        target = _targets(ops, names)
+        assert [t.op_code.name for t in target] == names, f"template {ctx}: target ops {[t.op_code.name for t in target]}"
+        assert len(c["ops"]) == len(names), "one parameter list per target op"
+        real: list[list] = []
+        for t, plist in zip(target, c["ops"]):
+            ps = [param_from_wire(w) for w in plist]
+            if t.op_code.name in FREE_ARITY:
+                t.params = list(ps)
+            else:
+                assert len(ps) <= len(t.params), f"{t.op_code.name} takes {len(t.params)} parameters"
+                t.params[:len(ps)] = ps
+            real.append(ps)
+        out["printed0"] = [[str(p) for p in ps] for ps in real]
+    except BaseException as e:  # noqa
+        return {"setup_err": type(e).__name__ + ": " + str(e)[:200]}
+    try:
+        if dec == "exps":
+            text, _sm = ExplorerScriptSsbDecompiler(infos, ops, [], "PERF_VAR", dt.DungeonModeConstants(*DM)).convert()
+        else:
+            text, _sm = SsbScriptSsbDecompiler(infos, ops, []).convert()
+    except BaseException as e:  # noqa
+        return {**out, "dec_err": type(e).__name__ + ": " + str(e)[:200]}
+    out["text"] = text
+    out["indents"] = [[getattr(p, "indent", None) for p in ps] for ps in real]
+    out["printed"] = [[str(p) for p in ps] for ps in real]
+    try:
+        if dec == "exps":
+            comp = ExplorerScriptSsbCompiler("PERF_VAR", [])
+            comp.compile(text, "/tmp/c04_roundtrip.exps")
+        else:
+            comp = SsbScriptSsbCompiler()
+            comp.compile(text)
+        back = _targets(comp.routine_ops, names)
+        out["back_names"] = [b.op_code.name for b in back]
+        out["back"] = [[param_to_wire(p) for p in b.params] for b in back]
+    except BaseException as e:  # noqa
+        out["comp_err"] = type(e).__name__ + ": " + str(e)[:160]
+    return out
+
+
+def e2e_ops_cases(cases: list[dict]) -> list[dict]:
+    return [e2e_ops_one(c) for c in cases]
 
 
 # ---------------------------------------------------------------------------------------------------------------------
